@@ -9,3 +9,4 @@ import Dtr.Props.C15
 #print axioms Dtr.C15_model_is_a_function
 #print axioms Dtr.C15_lock_step_behind_error
 #print axioms Dtr.rngAfter_mono
+#print axioms Dtr.C15_static_eq_dynamic_continued
